@@ -139,6 +139,9 @@ thread_local! {
     /// collect() gathers in row order, which is not fixed between two executions: for statements
     /// using it, lists are compared as multisets.
     static UNORDERED_LISTS: std::cell::Cell<bool> = const { std::cell::Cell::new(false) };
+    /// avg()/sum() add floats in row order, which is not fixed between two executions: the last
+    /// bits of the result may differ; such statements compare floats to 1e-12 relative.
+    static FLOAT_TOLERANCE: std::cell::Cell<bool> = const { std::cell::Cell::new(false) };
 }
 
 /// Ok(()) when the JSON value is the image of the Rust value under the fixed mapping.
@@ -161,6 +164,7 @@ fn value_matches(v: &Value, j: &J, path: &str) -> Result<(), String> {
         }
         Value::Float(f) => match j {
             J::Number(n) if n.is_f64() && n.as_f64().map(|x| x.to_bits()) == Some(f.to_bits()) => Ok(()),
+            J::Number(n) if n.is_f64() && FLOAT_TOLERANCE.with(|c| c.get()) && n.as_f64().is_some_and(|x| (x - f).abs() <= 1e-12 * f.abs().max(x.abs())) => Ok(()),
             _ => bad("float differs"),
         },
         Value::String(s) => {
@@ -783,6 +787,7 @@ fn read_phase(cx: &mut Ctx<'_>, rust: &Db, cdb: &CDb, stmts: &[Stmt]) {
         cx.out.evaluations += 1;
         cx.out.count(&format!("family.{}", s.family.split(':').next().unwrap_or("")), 1);
         UNORDERED_LISTS.with(|c| c.set(s.text.to_lowercase().contains("collect(")));
+        FLOAT_TOLERANCE.with(|c| c.set(s.text.to_lowercase().contains("avg(") || s.text.to_lowercase().contains("sum(")));
         let r = rust_read(rust, s);
         if let Err(e) = &r
             && e.phase == "panic"
